@@ -247,6 +247,8 @@ def make_prf(spec):
     def prf(key, msg):
         if "all" in spec:
             return bytes(spec["all"])
+        if key == b"bip-entropy-from-k":
+            return bytes(spec["entropy"]) if "entropy" in spec else None
         if key == b"Bitcoin seed" and "master" in spec:
             return bytes(spec["master"])
         if len(msg) >= 4 and key != b"Bitcoin seed":
@@ -733,3 +735,26 @@ def Construct(inp, tab, ev):
                               "wallet_net": "test" if w.testnet else "main",
                               "mnemonic": T(w.mnemonic or ""), "password": T(w.password or "")})
     ev["res"] = res_of(ok, w)
+
+
+# ------------------------------------------------------------------ C12 BIP85
+@act
+def Bip85(inp, tab, ev):
+    from btc_hd_wallet.bip85 import BIP85DeterministicEntropy
+    from btc_hd_wallet.bip39_wordlist import word_list
+    from . import refwallet as W
+    from .recorders import PrfTap
+    prf = make_prf(inp.get("prf"))
+    i = int.from_bytes(bytes(inp["ix"]["mag"]), "big") * (-1 if inp["ix"]["neg"] else 1)
+    p = inp["p"]
+    app = inp["app"]
+    rmaster = ref_node(tab, inp["master"])
+    wt = W.ref_bip85(tab, rmaster, app, p, i, prf, word_list)
+    ev["wordtab"] = wt or []
+    be = BIP85DeterministicEntropy(master_node=py_node(inp["master"]))
+    f = {"mnemonic": lambda: be.bip39_mnemonic(word_count=p, index=i), "wif": lambda: be.wif(index=i),
+         "xprv": lambda: be.xprv(index=i), "hex": lambda: be.hex(num_bytes=p, index=i),
+         "pwd": lambda: be.pwd(pwd_len=p, index=i)}[app]
+    with PrfTap(prf):
+        ok, v = call(f)
+    ev["res"] = res_of(ok, v, T)
